@@ -27,6 +27,12 @@ type SpyCall struct {
 	Name     string
 	Verified bool // Verified() of the owning node at call time
 	Node     int
+	// ProcessHeader calls only: the submitted header's hash, whether the repository knew that hash before
+	// the call, and the repository's answer.
+	Hash        *bitcoin.Hash32
+	Prev        *bitcoin.Hash32
+	KnownBefore bool
+	Err         error
 }
 
 // Recorder collects calls from node goroutines.
@@ -102,7 +108,11 @@ func (s *headerSpy) VerifyHeader(ctx context.Context, header *wire.BlockHeader) 
 }
 func (s *headerSpy) ProcessHeader(ctx context.Context, header *wire.BlockHeader) error {
 	s.note("headers.ProcessHeader")
-	return s.real.ProcessHeader(ctx, header)
+	hash := *header.BlockHash()
+	known := s.real.HashHeight(hash) >= 0
+	err := s.real.ProcessHeader(ctx, header)
+	s.rec.add(SpyCall{Name: "headers.ProcessHeader.result", Node: -1, Hash: &hash, Prev: &header.PrevBlock, KnownBefore: known, Err: err})
+	return err
 }
 func (s *headerSpy) Stop(ctx context.Context) { s.real.Stop(ctx) }
 
